@@ -44,6 +44,22 @@ CLAIMS = {
    text="Lean 4 theorems over the lock transition system of N callers sharing one endpoint (acquire/send/recv/release per method, FIFO peer tagging replies): for every configuration and every schedule, a request whose reply is outstanding implies its sender holds the lock (invariant), no foreign send is enabled meanwhile, the history is atomic, every caller consumes its own reply, no deadlock and a strictly decreasing measure (all calls complete); a broken variant (guard dropped between send and receive) is proved non-atomic. Correspondence: all interleavings of 2 (3 in thorough) concurrent calls on clones of Frontend / Backend proxy / GpuBackend at the instrumented hold points against a scripted tagging peer, plus per-method 8-thread stress.",
    note="One guard per method is taken from reading the 51 I/O methods (table in Model/Locks.lean) and tied by the hold-point runs; split-guard mutants are caught by the stress runs (probabilistic), double-lock mutants deterministically.",
    technique="Lean 4 proof (LTS invariant + progress measure) + schedule-controlled correspondence at hold points", ref="DESIGN.md §7 C10"),
+ "C01": dict(
+   text="Lean 4 theorems comparing the tables regenerated from message.rs/gpu_message.rs with the hand-transcribed specification: request codes of the three channels (name by name), header/virtio/protocol/ring-address/config/mmap/GPU-header flag constants, MAX_MSG_SIZE and friends, and - for each of 27 message structs - size, alignment and every field offset/width as computed by the C-ABI layout algorithm from the struct definitions (repr(C), packed, transparent); header algebra for all flag words (version 1, only REPLY/NEED_REPLY survive; reply headers have flags 5; request headers NEED_REPLY iff requested); little-endian field round trips; descriptors only with the first chunk (C08). Byte-exact correspondence: every request the real Frontend writes vs the Spec encoder, every reply the real server writes vs the Spec's owed reply, Spec-encoded requests from the independent generator codec vs the values the handler sees, rustc size_of vs generated vs Spec layout.",
+   note="Spec/Layout.lean, Spec/Flags.lean, Spec/Valid.lean are hand transcriptions of the specification; proxy and GPU-proxy bytes are compared by the proxy/gpu families once claimed (C18). The GPU protocol-feature constants (EDID=0, DMABUF2=1 used as flag values) are outside the statement and recorded in DESIGN.md.",
+   technique="Lean 4 proof (decide over translator-generated tables + layout algorithm) + byte-exact differential correspondence", ref="DESIGN.md §7 C01"),
+ "C09": dict(
+   text="Lean 4 theorems by token counting, for every chooser/stream/size: after recv_into_iovec_all (resp. recv_data) each descriptor that rode on the stream is in exactly one of {handed to the caller, closed by the library, still unread}; descriptors of later reads are never handed out; the caller gets at most the receive limit. The token flow through the dispatch arms is part of the executable model; the real process is inspected after every scenario (valid, invalid, truncated, over-stuffed histories with 0..40 descriptors, teardown after every message and error path): no open descriptor may refer to an object that travelled over the socket unless the application holds it; descriptors lent to the frontend API must still be open after the call.",
+   note="Linearity through the dispatch arms is checked by the leak scan on the real process (sampled), not yet by a theorem. Exit-event consumers of the workers (never sent over a socket) are excluded as stated in DESIGN.md.",
+   technique="Lean 4 proof (linearity by counting, induction over the receive loops) + /proc/self/fd identity scan in the correspondence", ref="DESIGN.md §7 C09"),
+ "C15": dict(
+   text="Lean 4 theorems over the model of bitmap.rs and the handler's log state: SET_LOG_BASE is accepted iff the log holds the byte of every region's highest page; mark_dirty sets exactly the bits of the pages a write touches (bit p%8 of byte p/8) and no other, through any slice chain, for every offset/length incl. 0, usize::MAX and overflowing sums; every index touched is below the log length (the assert can never fire); any interleaving of any number of writers' fetch_or steps yields the OR of all; after any history of SET_LOG_BASE / SET_MEM_TABLE / ADD_MEM_REG / REM_MEM_REG a log in force covers every current region (repaired F-C15-retain; counterexamples for the old handler kept as theorems). Correspondence: real daemon with BitmapMmapRegion, 1..4 page-aligned memfd regions sharing log bytes, writes through GuestMemory and add_used across page/slice boundaries, all log sizes/offsets, guard bytes around the mapping, 2..16 concurrent writers, histories interleaving the log with table changes.",
+   note="vm-memory's per-chunk mark_dirty calls and table rules, and single-byte fetch_or atomicity, are assumed (exercised by the correspondence). Unaligned regions are outside the statement's domain (recorded, not alarmed).",
+   technique="Lean 4 proof (exact bit set, bounds, commutativity over interleavings, history invariant) + differential correspondence on the shared log file", ref="DESIGN.md §7 C15"),
+ "C17": dict(
+   text="Lean 4 theorems over the model of the registration loop and the event loop: evtIdx (popcount mask - popcount (mask >> q)) equals the rank of q in the mask for all 2^64 masks and all q < 64 (by splitting popcount over bit ranges, no enumeration); the slice handed to the backend is the thread's queues in increasing order and its element at the event id is the kicked queue; exactly one registration, on the first thread whose mask contains q; a queue's event id is below num_queues (the exit id) and dispatches as a ring; an accepted custom listener id is delivered as exactly that id, is not the exit id and no queue's rank (repaired F-C17-u16; the truncation counterexample for the old rule is kept as a theorem). Correspondence: real daemon, assignments of 1..6 queues to 1..3 masks (exhaustive in thorough) x every queue kicked, listener ids across the 64-bit range, with a sleep-free barrier.",
+   note="n <= 64 is carried as a hypothesis (queues_mask >> index overflows beyond; noted under C05). Level-triggered epoll / eventfd semantics assumed.",
+   technique="Lean 4 proof (rank = popcount difference for all masks) + differential correspondence on the real daemon", ref="DESIGN.md §7 C17"),
 }
 
 def chk(pid, c):
